@@ -314,10 +314,49 @@ struct RuleLine {
   self_applied: bool,
 }
 
+/// Does this physical line start a rule: `name [<params>] (= | /= | //=) ...` at its beginning?
+fn starts_rule(line: &str) -> bool {
+  let t = line.trim_start();
+  let mut it = t.char_indices().peekable();
+  let mut end = 0;
+  match it.peek() {
+    Some((_, c)) if c.is_ascii_alphabetic() || "@_$".contains(*c) => {}
+    _ => return false,
+  }
+  for (i, c) in it {
+    if c.is_ascii_alphanumeric() || "@_$-.".contains(c) {
+      end = i + c.len_utf8();
+    } else {
+      break;
+    }
+  }
+  let mut rest = t[end..].trim_start();
+  if rest.starts_with('<') {
+    match rest.find('>') {
+      Some(p) => rest = rest[p + 1..].trim_start(),
+      None => return false,
+    }
+  }
+  (rest.starts_with('=') && !rest.starts_with("=>")) || rest.starts_with("/=") || rest.starts_with("//=")
+}
+
 fn parse_rules(schema: &str) -> Vec<RuleLine> {
   let mut out = Vec::new();
+  // logical rules: a physical line that does not start a rule continues the previous one (rule bodies may
+  // span lines; a literal may even contain a line break)
+  let mut logical: Vec<String> = Vec::new();
   for line in schema.lines() {
     let line = line.split(';').next().unwrap_or("");
+    if starts_rule(line) || logical.is_empty() {
+      logical.push(line.to_string());
+    } else {
+      let last = logical.last_mut().unwrap();
+      last.push(' ');
+      last.push_str(line);
+    }
+  }
+  for line in logical.iter() {
+    let line = line.as_str();
     let (lhs, rhs) = if let Some(p) = line.find("//=") {
       (&line[..p], &line[p + 3..])
     } else if let Some(p) = line.find("/=") {
